@@ -23,6 +23,7 @@ def main(p):
     tp = a['proto_package']
     comments = a['comments']       # full name -> text
     kinds = a['kinds']             # full name -> kind
+    places = a.get('places') or {}
     for full, text in comments.items():
         kind = kinds[full]
         words = text.split()
@@ -42,11 +43,11 @@ def main(p):
                 svc, m = full.rsplit('.', 2)[1:]
                 doc = getattr(lib.client_cls(svc), names.py_method(m)).__doc__
         except BaseException as e:
-            out['failures'].append(dict(element=full, kind=kind, what=f'lookup failed: {type(e).__name__}: {e}', text=text))
+            out['failures'].append(dict(element=full, kind=kind, place=places.get(full, 'leading'), what=f'lookup failed: {type(e).__name__}: {e}', text=text))
             continue
         out['checked'] += 1
         if not doc or not subsequence(words, doc.split()):
-            out['failures'].append(dict(element=full, kind=kind, what='comment words missing from the docstring', text=text,
+            out['failures'].append(dict(element=full, kind=kind, place=places.get(full, 'leading'), what='comment words missing from the docstring', text=text,
                                         doc=(doc or '')[:300]))
         elif len(out['samples']) < 2:
             out['samples'].append(dict(element=full, kind=kind, comment=text))
